@@ -341,7 +341,7 @@ def translate():
             raise TranslatorError(f'_operations[{t}] = {f} is not a module-level _process_* function')
     out = ['(* GENERATED by translator/t2_tseytin.py from cirbo/sat/cnf/tseytin.py. DO NOT EDIT. *)',
            'Require Import Cirbo.Model.Base Cirbo.Model.Gate Cirbo.Model.Cnf.',
-           'Open Scope Z_scope.', '']
+           'Local Open Scope Z_scope.', '']
     for n in names:
         out.append(Template(funcs[n]).emit())
     out += ['(* the _operations dispatch dict *)',
